@@ -25,17 +25,21 @@ Definition w_pending (w : world) (d : dest) : list sdentry :=
 
 Lemma lq_qlog d l : log_queued d (qlog l) = log_queued d l.
 Proof.
-  induction l as [|[t g] l IH]; [reflexivity|]. destruct g as [e d'|d' es|es d' f i].
+  induction l as [|[t g] l IH]; [reflexivity|]. destruct g as [e d'|d' es|es d' f i|st a k ttl|st a k].
   - change (log_queued d ((t, GQueue e d') :: qlog l) = log_queued d ((t, GQueue e d') :: l)). cbn [log_queued]. rewrite IH. reflexivity.
   - change (log_queued d ((t, GFlush d' es) :: qlog l) = log_queued d ((t, GFlush d' es) :: l)). cbn [log_queued]. rewrite IH. reflexivity.
   - change (log_queued d (qlog l) = log_queued d ((t, GSend es d' f i) :: l)). cbn [log_queued snd q_contrib]. rewrite app_nil_r. exact IH.
+  - change (log_queued d (qlog l) = log_queued d ((t, GRefresh st a k ttl) :: l)). cbn [log_queued snd q_contrib]. rewrite app_nil_r. exact IH.
+  - change (log_queued d (qlog l) = log_queued d ((t, GExpire st a k) :: l)). cbn [log_queued snd q_contrib]. rewrite app_nil_r. exact IH.
 Qed.
 Lemma lf_qlog d l : log_flushed d (qlog l) = log_flushed d l.
 Proof.
-  induction l as [|[t g] l IH]; [reflexivity|]. destruct g as [e d'|d' es|es d' f i].
+  induction l as [|[t g] l IH]; [reflexivity|]. destruct g as [e d'|d' es|es d' f i|st a k ttl|st a k].
   - change (log_flushed d ((t, GQueue e d') :: qlog l) = log_flushed d ((t, GQueue e d') :: l)). cbn [log_flushed]. rewrite IH. reflexivity.
   - change (log_flushed d ((t, GFlush d' es) :: qlog l) = log_flushed d ((t, GFlush d' es) :: l)). cbn [log_flushed]. rewrite IH. reflexivity.
   - change (log_flushed d (qlog l) = log_flushed d ((t, GSend es d' f i) :: l)). cbn [log_flushed snd f_contrib]. rewrite app_nil_r. exact IH.
+  - change (log_flushed d (qlog l) = log_flushed d ((t, GRefresh st a k ttl) :: l)). cbn [log_flushed snd f_contrib]. rewrite app_nil_r. exact IH.
+  - change (log_flushed d (qlog l) = log_flushed d ((t, GExpire st a k) :: l)). cbn [log_flushed snd f_contrib]. rewrite app_nil_r. exact IH.
 Qed.
 
 (* ------------------------------------------------------------------ the history invariant *)
@@ -134,6 +138,9 @@ Proof.
   - exists []. rewrite app_nil_r. destruct st as [|i]; cbn; [split; reflexivity|destruct (aget N.eqb i (insts w)); split; reflexivity].
   - exists []. rewrite !app_nil_r. destruct st as [|i]; cbn; [split; reflexivity|destruct (aget N.eqb i (insts w)); split; reflexivity].
 Qed.
+Definition tlog_b (g : gev) : bool := match g with GRefresh _ _ _ _ | GExpire _ _ _ => true | _ => false end.
+Lemma Xk_ghost g : tlog_b g = true -> Xk (ghost g).
+Proof. intros Hg w. destruct g; try discriminate; (constructor; try reflexivity; [auto|auto|auto|nosess|nosess]). Qed.
 Lemma Xk_put_task t tk : Xk (put_task t tk). Proof. intros w. constructor; try reflexivity; [auto|auto|auto|nosess|nosess]. Qed.
 Lemma Xk_put_inst i x : Xk (put_inst i x). Proof. intros w. constructor; try reflexivity; [auto|auto|auto|nosess|nosess]. Qed.
 Lemma Xk_call_soon h : nocoll_b h = true -> Xk (call_soon h).
@@ -154,7 +161,7 @@ Qed.
 Lemma Xk_store_expired st a k : Xk (store_expired st a k).
 Proof.
   intros w. unfold store_expired. destruct (aget key_eqb k _); [|apply Xk_put_store].
-  eapply kx_trans; [apply Xk_put_store|eapply Xk_neutral, n_store_callback].
+  eapply kx_trans; [|apply Xk_ghost; reflexivity]. eapply kx_trans; [apply Xk_put_store|eapply Xk_neutral, n_store_callback].
 Qed.
 Lemma Xk_store_stop_all_for_address st a : Xk (store_stop_all_for_address st a).
 Proof.
@@ -169,7 +176,9 @@ Proof.
 Qed.
 Lemma Xk_refresh_tail st ttl a k : Xk (fun w => fst (refresh_tail st ttl a k w)).
 Proof.
-  intros w. unfold refresh_tail. destruct (ttl =? TTL_FOREVER); [cbn [fst]; apply Xk_put_store|].
+  intros w0. unfold refresh_tail. cbv zeta. apply (kx_trans _ (ghost (GRefresh st a k ttl) w0)); [apply Xk_ghost; reflexivity|].
+  generalize (ghost (GRefresh st a k ttl) w0). clear w0. intros w.
+  destruct (ttl =? TTL_FOREVER); [cbn [fst]; apply Xk_put_store|].
   destruct (call_later (ttl * usec_per_sec) (HExpired st a k) w) as [t w'] eqn:Ec. cbn [fst].
   assert (w' = snd (call_later (ttl * usec_per_sec) (HExpired st a k) w)) as -> by (rewrite Ec; reflexivity).
   eapply kx_trans; [apply (Xk_call_later (ttl * usec_per_sec) (HExpired st a k) w eq_refl)|apply Xk_put_store].
@@ -457,19 +466,6 @@ Qed.
 Lemma GGK_run_ready : forall n w, GGK [] w -> GGK [] (run_ready n w).
 Proof. induction n as [|n IH]; intros w Hg; [exact Hg|]. rewrite run_ready_step. apply IH, GGK_lstep1, Hg. Qed.
 
-Lemma GG_iter_pre arrivals rv w : all_notexp arrivals -> GG [] w -> GG [] (iter_pre arrivals rv w).
-Proof.
-  intros Ha Hg. split; [apply G_iter_pre; exact (proj1 Hg)|].
-  pose proof (GG_arrivals arrivals w Ha Hg) as [_ [H2 Hne]].
-  destruct (iter_pre_sub arrivals rv w) as (Hsub & Hc & Hf & Hi). cbv zeta in *.
-  split.
-  - intros tid st a k Hin Hnc. rewrite Hc in Hnc.
-    assert (Hst : get_store st (iter_pre arrivals rv w) = get_store st (fold_left (fun acc h => call_soon h acc) arrivals w)).
-    { destruct st as [|i]; unfold get_store; rewrite ?Hf, ?Hi; reflexivity. }
-    rewrite Hst. apply H2; [apply Hsub; exact Hin|exact Hnc].
-  - unfold ne_ready, iter_pre. cbv zeta. cbn [ready set_timers set_ready]. rewrite forallb_app. unfold ne_ready in Hne. rewrite Hne. cbn [andb].
-    apply forallb_forall. intros x Hx. apply in_map_iff in Hx. destruct Hx as (t & <- & _). reflexivity.
-Qed.
 
 Lemma K_arrivals : forall hs w, all_notexp hs -> Kinv w -> Kinv (fold_left (fun acc h => call_soon h acc) hs w).
 Proof.
